@@ -150,8 +150,10 @@ pub fn emit_b_module(id: usize, l: &Layout, o: &EmitOpts, consts: Option<&str>) 
     writeln!(s, "{}", MOD_ALLOW).unwrap();
     writeln!(s, "use arbitrary_int::*;\nuse rt::{{Obj, Val}};\n").unwrap();
     let ro = RenderOpts::default();
+    // the declaration lives in its own module, so that only its public API is reachable from the adapter
+    writeln!(s, "pub mod decl {{\n    #![allow(dead_code, unused_imports, non_camel_case_types, non_upper_case_globals)]\n    use arbitrary_int::*;").unwrap();
     s.push_str(&render_layout(l, &ro));
-    s.push('\n');
+    writeln!(s, "}}\nuse decl::*;\n").unwrap();
     for e in &l.enums {
         s.push_str(&enum_to_disc_fn(e));
     }
@@ -294,7 +296,9 @@ pub fn emit_enum_module(id: usize, e: &EnumDecl, consts: Option<&str>) -> String
     writeln!(s, "{}", MOD_ALLOW).unwrap();
     writeln!(s, "use arbitrary_int::*;\nuse rt::Val;\n").unwrap();
     let ro = RenderOpts::default();
+    writeln!(s, "pub mod decl {{\n    #![allow(dead_code, unused_imports, non_camel_case_types)]\n    use arbitrary_int::*;").unwrap();
     s.push_str(&render_enum(e, &ro));
+    writeln!(s, "}}\nuse decl::*;\n").unwrap();
     s.push_str(&enum_to_disc_fn(e));
     let d = format!("disc_{}", e.name.to_lowercase());
     let arg = to_base(e.bits, "x");
